@@ -114,3 +114,15 @@ def expanded_facts(A: Analysis, func: FuncInfo, cfg: CFG, node_id: int) -> List[
         else:
             out.append((a, pol))
     return out
+
+
+def inl(A: Analysis, func: FuncInfo) -> List[ast.AST]:
+    """AST nodes of func and of the private helpers it calls as statements (see Analysis.nodes)."""
+    return [n for n, _ in A.nodes(func)]
+
+
+def owner_of(A: Analysis, func: FuncInfo, node) -> FuncInfo:
+    for n, o in A.nodes(func):
+        if n is node:
+            return o
+    return func
